@@ -24,6 +24,8 @@ type Engine struct {
 	NoInline bool
 	inliner  *inliner
 	rangeIdx map[*ast.RangeStmt]*types.Var
+	// IsPinned reports whether a function already existed (by name) at the pinned commit; set by the rules
+	IsPinned func(*types.Func) bool
 }
 
 func NewEngine(p *load.Prog) *Engine {
@@ -705,6 +707,13 @@ func (f *Fn) FromUntil(n ast.Node, st State, stops ...ast.Node) *Analysis {
 		}
 	}
 	a.run(b, idx, st)
+	return a
+}
+
+// FromBlock runs forward from the entry of block b with the given state (e.g. the state on one outgoing edge of a test).
+func (f *Fn) FromBlock(b *cfg.Block, st State) *Analysis {
+	a := &Analysis{Fn: f, In: map[int32]State{}, out: map[int32][]State{}, visits: map[int32]int{}}
+	a.run(b, 0, st)
 	return a
 }
 
